@@ -502,6 +502,15 @@ def auto_r2(sf, ed, lo, hi, arms=()):
                     continue
                 n += 1
                 ed.rw(s0, e0, '_vx_unused%d' % n, 'R2')
+            elif st[k].text == '(' and st[k + 1].text == ')' and st[k - 1].text in ('|', ',') and st[k + 2].text in ('|', ','):
+                # the unit pattern `()` as a closure parameter: a named variable of type ()
+                s0, e0 = st[k].start, st[k + 1].end
+                if any(e[0] <= s0 < e[0] + max(e[1], 1) or (s0 <= e[0] < e0) for e in ed.ed if e[1] > 0):
+                    continue
+                if any(a['p0'] <= k <= a['e'] for a in arms):
+                    continue
+                n += 1
+                ed.rw(s0, e0, '_vx_unit%d: ()' % n, 'R2')
 
 
 def emit_item(spec, log, vacuity=False):
@@ -676,7 +685,7 @@ def emit_slice(spec, log, vacuity=False):
             tx = st[k].text
             if tx in OPEN:
                 k = m[k]
-                if st[k].text == '}' and st[k + 1].text != ';' and st[k + 1].text != '.' and st[k + 1].text != '?':
+                if st[k].text == '}' and st[k + 1].text not in (';', '.', '?', 'else'):
                     break
                 k += 1
                 continue
